@@ -136,7 +136,7 @@ Qed.
 Theorem lay1_node_ok : forall st lines n minCol,
   Lay1 st lines n -> node_ok lines n minCol = true.
 Proof.
-  intros st lines n minCol [Hv [Hnn [Hblk [Hanc [[l [pre [post [Hl [El [Hasc Ec]]]]]] Hp]]]]].
+  intros st lines n minCol [Hv [Hnn [Hblk [Hanc [Hdq [[l [pre [post [Hl [El [Hasc Ec]]]]]] [Hp Hnb]]]]]]].
   unfold node_ok. destruct (sn_value n) as [|need rest] eqn:Ev; [contradiction|].
   rewrite Hblk.
   rewrite Hnn. cbn [negb andb].
@@ -187,6 +187,11 @@ Proof.
       replace (vs <? 0) with false by (symmetry; apply Z.ltb_ge; lia).
       reflexivity. }
   rewrite Hadj, Hdrop.
+  assert (Hnobs : sn_dq n && negb (no_backslash_b (tok ++ post)) = false).
+  { rewrite Hdq. destruct st; try reflexivity.
+    destruct (Hnb eq_refl) as [l' [Hl' Hb]]. unfold line_at in Hl'. rewrite E1 in Hl'.
+    assert (l' = l) by congruence. subst l'. rewrite Hdrop in Hb. fold tok in Hb. rewrite Hb. reflexivity. }
+  rewrite Hnobs.
   assert (Hg : snd (gscan (tok ++ post) need rest) = None).
   { apply gscan_subseq. apply subseq_complete. apply Sub_app_r. apply Sub_token. }
   destruct (gscan (tok ++ post) need rest) as [m res]. cbn [snd] in Hg. subst res. reflexivity.
